@@ -759,6 +759,20 @@ impl<'tcx> Cx<'tcx> {
                 io.push(("ty", n(self.ty(t))));
                 io.push(("ty_s", s(t)));
             }
+            // value of an associated constant of integer / bool type, when the impl fixes it
+            if format!("{:?}", it.as_def_kind()).starts_with("AssocConst") {
+                let t = tcx.type_of(it.def_id).instantiate_identity().skip_norm_wip();
+                io.push(("ty", n(self.ty(t))));
+                if t.is_integral() || t.is_bool() {
+                    if let Ok(v) = tcx.const_eval_poly(it.def_id) {
+                        if let Some(si) = v.try_to_scalar_int() {
+                            let sz = si.size();
+                            io.push(("int", s(si.to_bits(sz))));
+                            io.push(("bits", n(sz.bits() as usize)));
+                        }
+                    }
+                }
+            }
             items.push(J::O(io));
         }
         o.push(("items", J::A(items)));
